@@ -20,6 +20,9 @@ pub fn shape_key(state: &str) -> String {
 
 type Path = Vec<(Op, Option<i64>)>;
 
+/// the suite emits raw arena snapshots for the arena-level model (`VERIF_ARENA=1`, set by the `arena-*` suites)
+pub fn arena_mode() -> bool { std::env::var("VERIF_ARENA").is_ok() }
+
 fn rebuild<'a>(out: &'a mut Out, suite: &str, coll: &str, cap: usize, variant: u32, path: &Path) -> Runner<'a> {
     let mut r = Runner::new(out, suite, coll, cap, variant);
     r.emit = false;
@@ -52,7 +55,7 @@ fn mapset_ops(coll: &str, entries: &[(u32, i64, i64, i64)], u: i64) -> Vec<(Op, 
 
 /// breadth-first over every reachable shape of a small key universe; returns (states, truncated)
 pub fn exhaustive_mapset(out: &mut Out, coll: &str, u: i64, max_states: usize) -> (usize, bool) {
-    let suite = format!("exh-{}-u{}", coll, u);
+    let suite = format!("exh-{}{}-u{}", if arena_mode() { "a" } else { "" }, coll, u);
     let mut seen: HashSet<String> = HashSet::new();
     let mut queue: VecDeque<Path> = VecDeque::new();
     seen.insert(String::from("L "));
@@ -101,7 +104,7 @@ fn key_ops(r: &Runner, u: i64, tmax: i64) -> Vec<Op> {
 }
 
 pub fn exhaustive_key(out: &mut Out, coll: &str, u: i64, tmax: i64, max_states: usize) -> (usize, bool) {
-    let suite = format!("exh-{}-u{}", coll, u);
+    let suite = format!("exh-{}{}-u{}", if arena_mode() { "a" } else { "" }, coll, u);
     let mut seen: HashSet<String> = HashSet::new();
     let mut queue: VecDeque<Path> = VecDeque::new();
     seen.insert(String::from("L @0"));
@@ -131,7 +134,7 @@ pub fn exhaustive_key(out: &mut Out, coll: &str, u: i64, tmax: i64, max_states: 
 pub struct RandCfg { pub len: usize, pub universe: i64, pub cap: usize, pub variant: u32, pub profile: u32 }
 
 pub fn random_mapset(out: &mut Out, coll: &str, rng: &mut Rng, cfg: &RandCfg) {
-    let suite = format!("rand-{}", coll);
+    let suite = format!("{}rand-{}", if arena_mode() { "arena-" } else { "" }, coll);
     let mut r = Runner::new(out, &suite, coll, cfg.cap, cfg.variant);
     let is_set = coll == "set" || coll == "slist";
     let is_list = coll.ends_with("list");
@@ -184,7 +187,7 @@ pub fn random_mapset(out: &mut Out, coll: &str, rng: &mut Rng, cfg: &RandCfg) {
 }
 
 pub fn random_key(out: &mut Out, coll: &str, rng: &mut Rng, cfg: &RandCfg) {
-    let suite = format!("rand-{}", coll);
+    let suite = format!("{}rand-{}", if arena_mode() { "arena-" } else { "" }, coll);
     let mut r = Runner::new(out, &suite, coll, cfg.cap, cfg.variant);
     let u = cfg.universe;
     let mut t: i64 = rng.range(0, 3);
@@ -231,7 +234,7 @@ pub fn arena_edge(out: &mut Out, coll: &str, rng: &mut Rng, rounds: usize) {
         for &cap in &[0usize, 1, 8, 9, 16] {
             let c0 = cap.max(8) as i64;
             for &n in &[c0 - 1, 2 * c0 - 1, c0 - 2, c0] {
-                let mut r = Runner::new(out, &format!("edge-{}", coll), coll, cap, 0);
+                let mut r = Runner::new(out, &format!("{}edge-{}", if arena_mode() { "arena-" } else { "" }, coll), coll, cap, 0);
                 let mut keys: Vec<i64> = (0..n).collect();
                 for j in (1..keys.len()).rev() { let k = rng.below(j as u64 + 1) as usize; keys.swap(j, k); }
                 for (i, k) in keys.iter().enumerate() {
@@ -259,7 +262,7 @@ pub fn corpus(out: &mut Out, path: &str) -> usize {
         let (head, ops) = match line.split_once("::") { Some(x) => x, None => continue };
         let h: Vec<&str> = head.split_whitespace().collect();
         if h.len() < 3 || h[0] == "seg" { continue; }
-        let mut r = Runner::new(out, "corpus", h[0], h[2].parse().unwrap_or(8), h[1].parse().unwrap_or(0));
+        let mut r = Runner::new(out, if arena_mode() { "arena-corpus" } else { "corpus" }, h[0], h[2].parse().unwrap_or(8), h[1].parse().unwrap_or(0));
         let mut inject: Option<usize> = None;
         for o in ops.split(';') {
             if let Some(op) = Op::parse(o.trim()) {
